@@ -32,6 +32,9 @@ type Op struct {
 	Upd   *bool  `json:"upd,omitempty"`
 	Val   Val    `json:"val"`
 	Fail  string `json:"fail,omitempty"` // "invalid": input is not a valid document; "matcher": a matcher fails
+	// FailOnlyExec: when >= 1 the failure applies only to that execution (1-based) of the test in a
+	// process; in the other executions the same call is made without the failing matcher
+	FailOnlyExec int `json:"fail_only_exec,omitempty"`
 	Multi []Val  `json:"multi,omitempty"`
 }
 
